@@ -277,6 +277,49 @@ def main():
     s.deliver([s.ev("a", i_old, F_RENAMED | F_IS_FILE), s.ev("a", i_new, F_CREATED | F_MODIFIED | F_IS_FILE)])
     s.check(problems)
 
+    # S7/S8: rename inside the tree and removal of the new name in the same batch: the destination's native event carries
+    # the coalesced flags renamed|removed (per item and path) and is paired with the source's event by inode
+    for isdir in (False, True):
+        s = Scenario(f"S7 rename {'dir' if isdir else 'file'} a->b then remove b, one batch")
+        if isdir:
+            os.mkdir(os.path.join(s.root, "a"))
+        else:
+            touch(os.path.join(s.root, "a"))
+        s.start()
+        i = ino(os.path.join(s.root, "a"))
+        os.rename(os.path.join(s.root, "a"), os.path.join(s.root, "b"))
+        (os.rmdir if isdir else os.unlink)(os.path.join(s.root, "b"))
+        kind = F_IS_DIR if isdir else F_IS_FILE
+        s.deliver([s.ev("a", i, F_RENAMED | kind), s.ev("b", i, F_RENAMED | F_REMOVED | kind)])
+        s.check(problems)
+
+    # S9: rename and modification of the new name in one batch (renamed|modified on the destination)
+    s = Scenario("S9 rename file a->b then modify b, one batch")
+    touch(os.path.join(s.root, "a"))
+    s.start()
+    i = ino(os.path.join(s.root, "a"))
+    os.rename(os.path.join(s.root, "a"), os.path.join(s.root, "b"))
+    touch(os.path.join(s.root, "b"), b"more")
+    s.deliver([s.ev("a", i, F_RENAMED | F_IS_FILE), s.ev("b", i, F_RENAMED | F_MODIFIED | F_IS_FILE)])
+
+    def exp9(events, problems, s=s):
+        bad = [e for e in events if not e.src_path.startswith(s.root) or (getattr(e, "dest_path", "") and not e.dest_path.startswith(s.root))]
+        mods = [e for e in events if type(e).__name__ == "FileModifiedEvent" and e.src_path != os.path.join(s.root, "b")]
+        if bad or mods:
+            problems.append(f"S9: modification of the renamed file reported for the wrong path: {events}")
+
+    s.check(problems, exp9)
+
+    # S10: the delete arrives in a later batch (control: must behave like S7)
+    s = Scenario("S10 rename file a->b, remove b in the next batch")
+    touch(os.path.join(s.root, "a"))
+    s.start()
+    i = ino(os.path.join(s.root, "a"))
+    os.rename(os.path.join(s.root, "a"), os.path.join(s.root, "b"))
+    os.unlink(os.path.join(s.root, "b"))
+    s.deliver([s.ev("a", i, F_RENAMED | F_IS_FILE), s.ev("b", i, F_RENAMED | F_IS_FILE)], [s.ev("b", i, F_REMOVED | F_IS_FILE)])
+    s.check(problems)
+
     if problems:
         print("C20 VIOLATED:")
         for p in problems:
